@@ -106,7 +106,8 @@ class RaftNode(Entity):
         self._heartbeat_event: Event | None = None
 
         # Pending client requests
-        self._pending_futures: dict[int, SimFuture] = {}  # log_index -> future
+        # (log_index, term) -> future; a negative int key marks a request queued on a non-leader
+        self._pending_futures: dict[Any, SimFuture] = {}
 
         # Stats
         self._commands_committed: int = 0
@@ -157,7 +158,9 @@ class RaftNode(Entity):
             return future
 
         entry = self._log.append(self._current_term, command)
-        self._pending_futures[entry.index] = future
+        # Keyed by (index, term): if this entry is later overwritten by another
+        # leader's entry at the same index, that entry must not resolve this future.
+        self._pending_futures[(entry.index, entry.term)] = future
         return future
 
     def start(self) -> list[Event]:
@@ -572,7 +575,7 @@ class RaftNode(Entity):
                 self._last_applied = entry.index
                 self._commands_committed += 1
 
-                future = self._pending_futures.pop(entry.index, None)
+                future = self._pending_futures.pop((entry.index, entry.term), None)
                 if future:
                     future.resolve((entry.index, result))
 
